@@ -556,6 +556,13 @@ func NewEthWorld(tbl *prog.Table, r *rand.Rand, tid string, tweak func(*chain.Op
 	if r.Intn(4) == 0 {
 		o.MinGasPrice = fmt.Sprintf("%d.5", 3+r.Intn(12))
 	}
+	// governance may switch contract creation / message calls off
+	switch r.Intn(12) {
+	case 0:
+		o.EvmDisableCreate = true
+	case 1:
+		o.EvmDisableCall = true
+	}
 	for i := 0; i < o.NAccts; i++ {
 		u.Add(fmt.Sprintf("a%d", i), chain.NewAcct(fmt.Sprintf("a%d", i)).Addr)
 	}
@@ -603,6 +610,7 @@ func genOneEthTx(out *trace.W, tbl *prog.Table, r *rand.Rand, tid string, blocks
 	g["ev"] = "Genesis"
 	g["tid"] = tid
 	g["minGP"] = floorDec(o.MinGasPrice)
+	g["enableCreate"], g["enableCall"] = !o.EvmDisableCreate, !o.EvmDisableCall
 	g["maxGas"] = o.MaxGas
 	out.Emit(g)
 
@@ -897,7 +905,8 @@ func (w *World) genEthSpec(nextNonce map[string]uint64, baseFee int64, created *
 		if s.Type == 2 && s.Tip+baseFee < s.Price {
 			eff = s.Tip + baseFee
 		}
-		if eff >= floor && w.C.Bal(from.Addr, chain.Denom).Int64() >= int64(s.Gas)*eff {
+		off := (s.To == "create" && w.C.Opts.EvmDisableCreate) || (s.To != "create" && w.C.Opts.EvmDisableCall)
+		if !off && eff >= floor && w.C.Bal(from.Addr, chain.Denom).Int64() >= int64(s.Gas)*eff {
 			nextNonce[s.FromName] = seq + 1
 		}
 	}
